@@ -19,6 +19,27 @@ impl Ord for MinHeapEntry<'_> {
             .then_with(|| other.m.timestamp_dms.cmp(&self.m.timestamp_dms))
             .then_with(|| other.m.mcnt().cmp(&self.m.mcnt()))
             .then_with(|| other.m.payload.cmp(&self.m.payload))
+            // msgs can still differ by the headers (e.g. same payload from different apids):
+            .then_with(|| {
+                other
+                    .m
+                    .standard_header
+                    .htyp
+                    .cmp(&self.m.standard_header.htyp)
+            })
+            .then_with(|| {
+                let key = |m: &DltMessage| {
+                    m.extended_header.as_ref().map(|e| {
+                        (
+                            e.verb_mstp_mtin,
+                            e.noar,
+                            e.apid.as_u32le(),
+                            e.ctid.as_u32le(),
+                        )
+                    })
+                };
+                key(&other.m).cmp(&key(&self.m))
+            })
     }
 }
 
